@@ -878,78 +878,14 @@ func (cx *Ctx) checkConstructedNonNil(r *Report) map[string]bool {
 			r.Undecided("R-NIL-INV", ck, w.FnPos(fn), "too many paths")
 			continue
 		}
-		type grp struct{ base, field string }
-		groups := map[grp]bool{}
-		for _, st := range fx.info(fn).stores {
-			fa, isFA := st.Addr.(*ssa.FieldAddr)
-			if !isFA || !isPtrLike(st.Val.Type()) {
-				continue
-			}
-			if _, isSig := st.Val.Type().Underlying().(*types.Signature); isSig {
-				continue
-			}
-			groups[grp{fx.path(fa.X), fname(fieldVar(fa.X.Type(), fa.Field))}] = true
-		}
-		var gs []grp
-		for g := range groups {
-			gs = append(gs, g)
-		}
-		sort.Slice(gs, func(i, j int) bool { return gs[i].base+gs[i].field < gs[j].base+gs[j].field })
+		gs := cx.nonNilGroups(fn, 0)
 		for _, g := range gs {
-			bad := ""
-			nSucc := 0
-			conditional := false
-			for i := range aps {
-				p := &aps[i]
-				if p.Ret == nil || len(p.Ret.Results) == 0 || isNilConst(fx.retVal(p, 0)) {
-					continue
-				}
-				nSucc++
-				var last ssa.Value
-				nStores := 0
-				for _, in := range p.Instrs() {
-					st, isSt := in.(*ssa.Store)
-					if !isSt {
-						continue
-					}
-					fa, isFA := st.Addr.(*ssa.FieldAddr)
-					if isFA && fx.path(fa.X) == g.base && fname(fieldVar(fa.X.Type(), fa.Field)) == g.field {
-						last = st.Val
-						nStores++
-					}
-				}
-				if nStores != 1 {
-					conditional = true
-				}
-				nonNilPath := func(q string) bool {
-					for _, a := range p.Atoms {
-						if a.Op == "NIL" && a.Neg && a.A == q {
-							return true
-						}
-					}
-					return false
-				}
-				okV := false
-				switch v := last.(type) {
-				case nil:
-					// not assigned on this path: what the caller's object holds must have been found non-nil
-					okV = nonNilPath(g.base + "." + g.field)
-				case *ssa.Alloc, *ssa.MakeInterface, *ssa.MakeMap, *ssa.MakeClosure, *ssa.Parameter, *ssa.FieldAddr, *ssa.IndexAddr:
-					okV = true
-				case *ssa.Extract:
-					okV = true // result of a call handed out together with an error the path found nil (R-ERR)
-				case *ssa.Call:
-					okV = true
-				case *ssa.UnOp:
-					okV = nonNilPath(fx.path(v)) || !isNilable(v.Type())
-				case *ssa.Const:
-					okV = !isNilConst(v)
-				default:
-					okV = true
-				}
-				if !okV {
-					bad = fmt.Sprintf("%s returns a provider whose %s.%s can be nil (%s at %s): the handlers dereference it without a test", ck, g.base, g.field, atomsString(p.Atoms), w.InstrPos(p.Ret))
-				}
+			success := func(p *APath) bool {
+				return p.Ret != nil && len(p.Ret.Results) > 0 && !isNilConst(fx.retVal(p, 0))
+			}
+			bad, nSucc, conditional := cx.fieldNonNilAtReturns(fn, aps, g, success, 0)
+			if bad != "" {
+				bad = ck + " returns a provider whose " + bad + ": the handlers dereference it without a test"
 			}
 			if !conditional && bad == "" {
 				continue // filled exactly once on every path: plain initialisation, nothing to establish
@@ -961,6 +897,170 @@ func (cx *Ctx) checkConstructedNonNil(r *Report) map[string]bool {
 		}
 	}
 	return established
+}
+
+type nnGroup struct{ base, field string }
+
+// nonNilGroups: the (object, pointer field) pairs fn assigns, itself or through module helpers it hands the object to.
+func (cx *Ctx) nonNilGroups(fn *ssa.Function, depth int) []nnGroup {
+	fx := cx.Fx
+	groups := map[nnGroup]bool{}
+	for _, st := range fx.info(fn).stores {
+		fa, isFA := st.Addr.(*ssa.FieldAddr)
+		if !isFA || !isPtrLike(st.Val.Type()) {
+			continue
+		}
+		if _, isSig := st.Val.Type().Underlying().(*types.Signature); isSig {
+			continue
+		}
+		groups[nnGroup{fx.path(fa.X), fname(fieldVar(fa.X.Type(), fa.Field))}] = true
+	}
+	if depth < 3 {
+		for _, c := range callsIn(fn) {
+			g := cx.nnHelper(c)
+			if g == nil {
+				continue
+			}
+			for i, a := range c.Common().Args {
+				if i >= len(g.Params) {
+					break
+				}
+				pp := fx.path(g.Params[i])
+				for _, hg := range cx.nonNilGroups(g, depth+1) {
+					if hg.base == pp {
+						groups[nnGroup{fx.path(a), hg.field}] = true
+					}
+				}
+			}
+		}
+	}
+	var gs []nnGroup
+	for g := range groups {
+		gs = append(gs, g)
+	}
+	sort.Slice(gs, func(i, j int) bool { return gs[i].base+gs[i].field < gs[j].base+gs[j].field })
+	return gs
+}
+
+// nnHelper: a statically called module function with a body (a helper the constructor hands its objects to).
+func (cx *Ctx) nnHelper(c ssa.CallInstruction) *ssa.Function {
+	if c.Common().IsInvoke() {
+		return nil
+	}
+	g, _ := c.Common().Value.(*ssa.Function)
+	if g == nil || g.Blocks == nil || g.Pkg == nil || !isModulePath(g.Pkg.Pkg.Path()) {
+		return nil
+	}
+	return g
+}
+
+// fieldNonNilAtReturns: on every path of fn that `success` selects, the value the field holds at the return is known
+// non-nil (see checkConstructedNonNil). A module helper that receives the object counts as an assignment when the
+// same holds for it on all of its returns (defaults moved into a helper function).
+func (cx *Ctx) fieldNonNilAtReturns(fn *ssa.Function, aps []APath, g nnGroup, success func(*APath) bool, depth int) (bad string, nSucc int, conditional bool) {
+	w, fx := cx.W, cx.Fx
+	for i := range aps {
+		p := &aps[i]
+		if !success(p) {
+			continue
+		}
+		nSucc++
+		var last ssa.Value
+		viaHelper := false
+		nStores := 0
+		for _, in := range p.Instrs() {
+			if c, isC := in.(ssa.CallInstruction); isC && depth < 3 {
+				if h := cx.nnHelper(c); h != nil {
+					for ai, a := range c.Common().Args {
+						if ai >= len(h.Params) || fx.path(a) != g.base {
+							continue
+						}
+						hg := nnGroup{fx.path(h.Params[ai]), g.field}
+						touches := false
+						for _, x := range cx.nonNilGroups(h, depth+1) {
+							if x == hg {
+								touches = true
+							}
+						}
+						if !touches {
+							continue
+						}
+						haps, ok := fx.atomPaths(h, 4096)
+						if !ok {
+							continue
+						}
+						hbad, hn, _ := cx.fieldNonNilAtReturns(h, haps, hg, func(q *APath) bool {
+							if q.Ret == nil {
+								return false
+							}
+							// a helper that reports failure: its failing returns are the caller's failing paths (R-ERR)
+							if n := len(q.Ret.Results); n > 0 && isErrorTypeT(q.Ret.Results[n-1].Type()) {
+								if _, nonNil := fx.errNilness(q, fx.retVal(q, n-1)); nonNil {
+									return false
+								}
+							}
+							return true
+						}, depth+1)
+						nStores++
+						conditional = true
+						if hbad == "" && hn > 0 {
+							viaHelper, last = true, nil
+						} else {
+							viaHelper = false
+							last = ssa.Value(nil)
+							bad = fmt.Sprintf("%s.%s can be nil after %s (%s)", g.base, g.field, w.FuncKey(h), hbad)
+						}
+					}
+				}
+			}
+			st, isSt := in.(*ssa.Store)
+			if !isSt {
+				continue
+			}
+			fa, isFA := st.Addr.(*ssa.FieldAddr)
+			if isFA && fx.path(fa.X) == g.base && fname(fieldVar(fa.X.Type(), fa.Field)) == g.field {
+				last = st.Val
+				viaHelper = false
+				nStores++
+			}
+		}
+		if nStores != 1 {
+			conditional = true
+		}
+		if viaHelper {
+			continue
+		}
+		nonNilPath := func(q string) bool {
+			for _, a := range p.Atoms {
+				if a.Op == "NIL" && a.Neg && a.A == q {
+					return true
+				}
+			}
+			return false
+		}
+		okV := false
+		switch v := last.(type) {
+		case nil:
+			// not assigned on this path: what the caller's object holds must have been found non-nil
+			okV = nonNilPath(g.base + "." + g.field)
+		case *ssa.Alloc, *ssa.MakeInterface, *ssa.MakeMap, *ssa.MakeClosure, *ssa.Parameter, *ssa.FieldAddr, *ssa.IndexAddr:
+			okV = true
+		case *ssa.Extract:
+			okV = true // result of a call handed out together with an error the path found nil (R-ERR)
+		case *ssa.Call:
+			okV = true
+		case *ssa.UnOp:
+			okV = nonNilPath(fx.path(v)) || !isNilable(v.Type())
+		case *ssa.Const:
+			okV = !isNilConst(v)
+		default:
+			okV = true
+		}
+		if !okV {
+			bad = fmt.Sprintf("%s.%s can be nil (%s at %s)", g.base, g.field, atomsString(p.Atoms), w.InstrPos(p.Ret))
+		}
+	}
+	return bad, nSucc, conditional
 }
 
 // commaOkMisuse: v, ok := x.(T) with a pointer / interface T yields a nil v when ok is false. Every use of v (other
